@@ -18,7 +18,7 @@ def exec_for(ex, s: ast.For, st):
     k, ls = ex.loop_spec(s)
     line = s.lineno - ex.fn.lineno
     it = s.iter
-    w = ex.write_set(s.body, st)
+    w = ex.write_set(s.body, st) | set(ls.ghost)  # ghost variables updated per iteration are loop-modified too
     ev = Eval(ex, st)
 
     # ---- range
